@@ -49,6 +49,8 @@ struct Ctx<'a> {
     edits: Vec<Edit>,
     seq: usize,
     errors: Vec<String>,
+    /// (fn key, anchor key, line relative to the fn body start) of every resolved text anchor
+    anchor_lines: Vec<(String, String, i64)>,
     float: bool,
     macro_map: HashMap<String, String>,
     /// R9.method: method-call identifier renames (`x.extend(v)` -> `x.vx_extend(v)`), the target is a prelude stub
@@ -77,6 +79,7 @@ impl<'a> Ctx<'a> {
             edits: vec![],
             seq: 0,
             errors: vec![],
+            anchor_lines: vec![],
             float: false,
             macro_map: HashMap::new(),
             method_map: HashMap::new(),
@@ -394,6 +397,24 @@ impl<'c, 'a, 'ast> Visit<'ast> for Rewriter<'c, 'a> {
     }
 }
 
+/// similarity of two lines: 2*LCS/(|a|+|b|) over characters
+fn similarity(a: &str, b: &str) -> f64 {
+    let a: Vec<char> = a.chars().collect();
+    let b: Vec<char> = b.chars().collect();
+    if a.is_empty() || b.is_empty() {
+        return 0.0;
+    }
+    let mut prev = vec![0usize; b.len() + 1];
+    for i in 1..=a.len() {
+        let mut cur = vec![0usize; b.len() + 1];
+        for j in 1..=b.len() {
+            cur[j] = if a[i - 1] == b[j - 1] { prev[j - 1] + 1 } else { prev[j].max(cur[j - 1]) };
+        }
+        prev = cur;
+    }
+    2.0 * prev[b.len()] as f64 / (a.len() + b.len()) as f64
+}
+
 /// strip attributes (R0): all non-doc outer attributes are removed; derive lists are filtered.
 fn attr_edits(cx: &mut Ctx, attrs: &[syn::Attribute]) {
     const KEEP: &[&str] = &["Clone", "Copy", "PartialEq", "Eq", "Default"];
@@ -700,15 +721,73 @@ fn apply_contract(cx: &mut Ctx, f: &FnInfo, contract: Option<&Value>, mutself: b
             let n = body.matches(anchor).count();
             let occ = i.get("occurrence").and_then(|v| v.as_u64());
             let expect = i.get("of").and_then(|v| v.as_u64()).unwrap_or(1) as usize;
+            let mut fuzzy_at: Option<usize> = None;
             if n != expect || anchor.is_empty() || occ.map(|o| o as usize >= n).unwrap_or(false) {
-                cx.errors.push(format!(
-                    "ANCHOR-LOST {}: anchor {:?} occurs {} times (expected {})",
-                    f.key, anchor, n, expect
-                ));
-                continue;
+                // The anchored statement was edited: fall back to the single most similar line of the
+                // body (first line of the anchor), so that an edit of an anchored statement is still
+                // *decided* instead of being reported as a lost anchor. Counted as R1.fuzzyanchor.
+                if pos != "replace" && n == 0 && expect == 1 && !anchor.is_empty() {
+                    let first = anchor.lines().next().unwrap_or("").trim();
+                    let mut best: (f64, usize) = (0.0, 0);
+                    let mut second = 0.0f64;
+                    let mut off = bs;
+                    for ln in body.split_inclusive('\n') {
+                        let sim = similarity(first, ln.trim());
+                        if sim > best.0 {
+                            second = best.0;
+                            best = (sim, off);
+                        } else if sim > second {
+                            second = sim;
+                        }
+                        off += ln.len();
+                    }
+                    if best.0 >= 0.6 && best.0 - second >= 0.08 {
+                        fuzzy_at = Some(best.1);
+                    } else if let Some(hl) = i.get("hint_line").and_then(|v| v.as_i64()) {
+                        // several similar lines: take the one nearest to where the anchor was on the pinned tree
+                        let fn_line = cx.line_of(bs) as i64;
+                        let mut cand: Option<(i64, usize)> = None;
+                        let mut off2 = bs;
+                        for ln in body.split_inclusive('\n') {
+                            let sim = similarity(first, ln.trim());
+                            if sim >= 0.6 {
+                                let rel = cx.line_of(off2) as i64 - fn_line;
+                                let d = (rel - hl).abs();
+                                if cand.map(|c| d < c.0).unwrap_or(true) {
+                                    cand = Some((d, off2));
+                                }
+                            }
+                            off2 += ln.len();
+                        }
+                        if let Some((d, o)) = cand {
+                            if d <= 3 {
+                                fuzzy_at = Some(o);
+                            }
+                        }
+                    }
+                }
+                if fuzzy_at.is_none() && i.get("droppable").and_then(|v| v.as_bool()).unwrap_or(false) {
+                    // the anchored statement is gone: drop this proof hint (ghost code only) and say so
+                    cx.push(bs, bs, "", "R1.droppedhint");
+                    continue;
+                }
+                if fuzzy_at.is_none() {
+                    cx.errors.push(format!(
+                        "ANCHOR-LOST {}: anchor {:?} occurs {} times (expected {})",
+                        f.key, anchor, n, expect
+                    ));
+                    continue;
+                }
             }
-            let at = bs + body.match_indices(anchor).nth(occ.unwrap_or(0) as usize).unwrap().0;
+            let at = match fuzzy_at {
+                Some(a) => {
+                    cx.push(a, a, "", "R1.fuzzyanchor");
+                    a
+                }
+                None => bs + body.match_indices(anchor).nth(occ.unwrap_or(0) as usize).unwrap().0,
+            };
             let line = cx.line_of(at);
+            cx.anchor_lines.push((f.key.clone(), format!("{}|{}|{}", pos, anchor, occ.unwrap_or(0)), line as i64 - cx.line_of(bs) as i64));
             let off = match pos {
                 "before" => cx.line_starts[line - 1],
                 "after" => {
@@ -1351,6 +1430,7 @@ fn main() {
                 "linemap": linemap,
                 "rewrites": counts,
                 "fns": fn_meta,
+                "anchor_lines": cx.anchor_lines.iter().map(|(k, a, l)| json!([k, a, l])).collect::<Vec<_>>(),
             }));
         }
     }
